@@ -89,7 +89,8 @@ class Cut:
 class Contract:
     def __init__(self, qual, params, spec=None, requires=None, raises=(), loops=None, props=(),
                  lift=None, note="", abstract=None, result_type=None, search=None, cuts=(),
-                 opaque=False, shape=None, ensures=None):
+                 opaque=False, shape=None, ensures=None, transparent=(), assumed=False, memo_transparent=(),
+                 on_apply=None):
         self.qual = qual              # "yarl._parse:split_netloc"
         self.params = params          # list[(name, type)]
         self.spec = spec              # native function object defined in a contracts module
@@ -106,6 +107,10 @@ class Contract:
         self.opaque = opaque          # at call sites the result is an opaque function of the arguments
         self.shape = shape            # ... of this shape (STR / INT / BOOL / OPT(..) / tuple of shapes)
         self.ensures = ensures        # native function (params..., result) -> bool: facts callers may use
+        self.transparent = set(transparent)   # callees whose executable specification is used in this proof
+        self.assumed = assumed        # contract used at call sites but not (yet) proved for its function
+        self.memo_transparent = set(memo_transparent)   # ... additionally while checking memo entries
+        self.on_apply = on_apply      # hook instantiating a proved lemma for structured arguments
 
     # --- use at a call site: the callee is its specification -----------------
     def apply(self, ex, st, args, kwargs, node, f):
@@ -123,7 +128,10 @@ class Contract:
         if self.abstract is not None:
             yield from self.abstract(ex, st, args, kwargs, node)
             return
-        if self.opaque:
+        if self.opaque and self.qual not in getattr(ex, "transparent", ()):
+            if self.assumed:
+                ex.assumed_contracts.add(f"{self.qual} (assumed contract: opaque result" +
+                                         (" with 'ensures' facts" if self.ensures else "") + ")")
             yield from self.apply_opaque(ex, st, args, kwargs, node)
             return
         yield from call_spec(ex, st, ex.wrap(self.spec), args, kwargs, node)
@@ -160,6 +168,8 @@ class Contract:
                 if len(outs) != 1 or isinstance(outs[0][0], Raised) or outs[0][1] is not st:
                     raise Unsupported(f"ensures of {self.qual} forks")
                 st.ctx.add(z3.Implies(z3.Not(raises), ex.truth(st, outs[0][0])))
+            if self.on_apply is not None:
+                self.on_apply(ex, st, self, full, raises, res)
         raises, res = ent
         if not self.raises:
             yield res, st
@@ -304,7 +314,8 @@ class Lemma:
     """A statement over the executable specifications (and contract facts) only: `fn` returns a
     truth value that must hold for all arguments satisfying `requires`."""
 
-    def __init__(self, fn, params, requires=None, props=(), note=""):
+    def __init__(self, fn, params, requires=None, props=(), note="", transparent=()):
+        self.transparent = set(transparent)
         self.fn = fn
         self.qual = f"{fn.__module__}:{fn.__qualname__}"
         self.params = params
@@ -330,6 +341,7 @@ def verify_lemma(lemma, registry, combo_filter=None, timeout_ms=10000, rounds=3)
         label = ",".join(f"{n}={l}" for (n, _), (l, _) in zip(lemma.params, combo))
         ex = Executor(registry, {})
         ex.verifying = lemma.qual
+        ex.transparent = set(getattr(lemma, "transparent", ()) or ())
         st = St(ex)
         st.handled = [(BaseException,)]
         args = [to_spec_arg(instantiate_param(ex, st.ctx, d)) for _, d in combo]
@@ -525,6 +537,7 @@ def verify_contract(contract, registry, combo_filter=None, timeout_ms=10000, rou
             loop_specs = {(contract.qual, k): LoopSpec(src, spec_ms) for k, src in contract.loops.items()}
             ex = Executor(registry, loop_specs)
             ex.verifying = contract.qual
+            ex.transparent = contract.transparent
             st = St(ex)
             st.handled = [tuple(contract.raises)]
             args = [instantiate_param(ex, st.ctx, d) for _, d in combo]
@@ -626,7 +639,12 @@ def verify_contract(contract, registry, combo_filter=None, timeout_ms=10000, rou
                               ex.oblige(s3, f"post:result==spec[{nm}]", "post", g, None,
                                         {"code": describe(val), "spec": describe(sval)})
                               if isinstance(val, V.VObj) and val.cls == "URL":
-                                  _memo_obligations(ex, s3, val, nm)
+                                  saved_tr = ex.transparent
+                                  ex.transparent = set(saved_tr) | contract.memo_transparent
+                                  try:
+                                      _memo_obligations(ex, s3, val, nm)
+                                  finally:
+                                      ex.transparent = saved_tr
                               if contract.ensures is not None:
                                   for ev, s4 in call_spec(ex, s3, ex.wrap(contract.ensures), sargs + [sval], {}):
                                       eg = z3.BoolVal(False) if isinstance(ev, Raised) else ex.truth(s4, ev)
@@ -657,6 +675,7 @@ def verify_contract(contract, registry, combo_filter=None, timeout_ms=10000, rou
             res["solver_checks"] += ex.sol.nchecks
             res["solver_time_s"] += ex.sol.time
             res["merges"] += getattr(ex, "nmerges", 0)
+            res["assumed_contracts"] = sorted(set(res.get("assumed_contracts", [])) | ex.assumed_contracts)
             # obligations left open by the incremental solver: standalone prover
             for ob in ex.obligations:
                 if ob.result is None:
